@@ -586,20 +586,29 @@ class Symbolic(
     try:
       updates = self._sym_rebind(path_value_pairs)
     except Exception:
-      # Part of the batch may have been applied: do the structural bookkeeping
-      # (e.g. removing deletion placeholders from lists) for what was touched.
-      for path in path_value_pairs:
-        parent = path.parent.get(self) if path else None
-        if isinstance(parent, Symbolic):
-          parent._sync_children()  # pylint: disable=protected-access
-          # Content-based caches of the touched node and its ancestors may
-          # be stale, as no change event is delivered for a failed batch.
-          node = parent
-          while node is not None:
-            node._set_raw_attr('_sym_puresymbolic', None)       # pylint: disable=protected-access
-            node._set_raw_attr('_sym_missing_values', None)     # pylint: disable=protected-access
-            node._set_raw_attr('_sym_nondefault_values', None)  # pylint: disable=protected-access
-            node = node.sym_parent
+      # Part of the batch may have been applied, and no change event will be
+      # delivered for it. Do the structural bookkeeping (e.g. removing deletion
+      # placeholders from lists) and drop the content-based caches. Which nodes
+      # were touched cannot be told from the paths any more (an applied
+      # insertion shifts the indices the remaining paths refer to), so this
+      # covers the subtree of this node and its ancestors.
+      def _reset(node: 'Symbolic') -> None:
+        node._sync_children()  # pylint: disable=protected-access
+        node._set_raw_attr('_sym_puresymbolic', None)       # pylint: disable=protected-access
+        node._set_raw_attr('_sym_missing_values', None)     # pylint: disable=protected-access
+        node._set_raw_attr('_sym_nondefault_values', None)  # pylint: disable=protected-access
+
+      def _reset_subtree(node: 'Symbolic') -> None:
+        _reset(node)
+        for v in node.sym_values():
+          if isinstance(v, Symbolic):
+            _reset_subtree(v)
+
+      _reset_subtree(self)
+      ancestor = self.sym_parent
+      while ancestor is not None:
+        _reset(ancestor)
+        ancestor = ancestor.sym_parent
       raise
     if skip_notification is None:
       skip_notification = not flags.is_change_notification_enabled()
